@@ -143,6 +143,12 @@ SCENARIOS = {
 }
 
 
+# interfaces declared by name: order of the list : names unknown locally
+NAME_MODES = ['names:SO:S', 'names:OS:S', 'names:SO:O', 'names:OS:O',
+              'names:SO:', 'names:OS:', 'names:S:S', 'names:S:',
+              'names:SO:SO']
+
+
 class System:
     def __init__(self, sc, proxy_mode):
         from twisted.internet import task
@@ -212,6 +218,22 @@ class System:
                 self.pump()
                 self.proxies[(caller, exporter)] = got
                 continue
+            if proxy_mode.startswith('names:'):
+                # interfaces declared by name, as a list in the given order;
+                # the names in `unknown` are not known locally when the
+                # proxy is asked for (so introspection has to supply them)
+                from txdbus import interface as I
+                _, order, unknown = proxy_mode.split(':')
+                full = {'S': 'org.ex.Svc', 'O': 'org.ex.Other'}
+                for k, nm in full.items():
+                    if k in unknown:
+                        I.DBusInterface.knownInterfaces.pop(nm, None)
+                    else:
+                        I.DBusInterface.knownInterfaces[nm] = \
+                            self.ifaces[exporter][0 if k == 'S' else 1]
+                ifc = [full[k] for k in order]
+                if len(ifc) == 1 and 'L' not in proxy_mode:
+                    ifc = ifc[0]
             self.cprotos[caller].getRemoteObject(
                 sc['exporters'][exporter], '/svc', ifc).addBoth(got.append)
             self.pump()
@@ -372,7 +394,15 @@ def make_runner(params):
             for ci, (caller, exporter, key) in enumerate(sc['calls']):
                 method, args, expf, logent = CALLS[key]
                 exp = expf(names[exporter], uniq[caller])
-                if key.startswith('echo') and mode == 'introspect':  # noqa
+                introspected = mode == 'introspect'
+                if mode.startswith('names:'):
+                    _, order, unknown = mode.split(':')
+                    # any unknown name: the proxy is built from the
+                    # introspection result; otherwise from the listed
+                    # interfaces in the listed order
+                    introspected = bool(set(unknown) & set(order)) or \
+                        order[0] == 'O'
+                if key.startswith('echo') and introspected:  # noqa
                     # 'Echo' is declared by two interfaces; without an
                     # interface argument a proxy uses the first of its
                     # interfaces declaring it - for an introspected proxy
@@ -450,6 +480,7 @@ def run(ctx):
                 ('2c-2calls', 'reintrospect', 0),
                 ('3c-2callers', 'explicit', 1),
                 ('3c-2exporters', 'introspect', 1)]
+        plan += [('2c-2calls', m, 0) for m in NAME_MODES]
         limit = 5000
     else:
         plan = [('2c-2calls', 'explicit', 2), ('2c-2calls', 'introspect', 1),
@@ -462,6 +493,8 @@ def run(ctx):
                 ('3c-2callers', 'explicit', 1),
                 ('3c-2exporters', 'introspect', 1),
                 ('3c-mixed', 'explicit', 0), ('4c', 'explicit', 0)]
+        plan += [('2c-2calls', m, 0) for m in NAME_MODES]
+        plan += [('2c-fail', m, 1) for m in NAME_MODES[:4]]
         limit = 60000
     for scn, mode, dev in plan:
         dfs.explore(ctx, make_runner,
